@@ -494,3 +494,24 @@ theorem C09_check_carries_this_rounds_answers (s : WatchLoop.St) (w : WatchLoop.
 example : (WatchLoop.run WatchLoop.init [⟨.newTx, .ok 3, .ok 1, true⟩, ⟨.tick, .err, .ok 9, true⟩, ⟨.tick, .ok 4, .err, true⟩,
     ⟨.tick, .ok 5, .ok 2, false⟩]) = ⟨true, 5, 2⟩ := by decide
 
+
+/-- a check that was due while the checker was busy is dropped, not lost for good: the next tick
+that sees a still newer block with the checker idle hands over a check with the then-current
+confirmed nonce (which covers everything the dropped one would have asked about) -/
+theorem C09_dropped_check_is_made_up (s : WatchLoop.St) (w : WatchLoop.Wake) (b k b' k' : Nat)
+    (ha : s.alive = true) (hw : w ≠ .shutdown) (hb : b < b')
+    (hd : (WatchLoop.step s w (.ok b) (.ok k) false).2 = .dropped k b) :
+    (WatchLoop.step (WatchLoop.step s w (.ok b) (.ok k) false).1 .tick (.ok b') (.ok k') true).2 = .check k' b' := by
+  apply C09_new_block_triggers_check
+  · cases w <;> simp [WatchLoop.step, ha] <;> (try split) <;> simp_all
+  · decide
+  · cases w
+    · exact absurd rfl hw
+    · simp [WatchLoop.step, ha]; omega
+    · simp only [WatchLoop.step, ha] at hd ⊢
+      by_cases hle : b ≤ s.lastBlock
+      · simp [hle] at hd
+      · simp [hle]; omega
+
+/-- non-vacuity of the drop hypothesis -/
+example : (WatchLoop.step ⟨true, 3, 0⟩ .tick (.ok 4) (.ok 2) false).2 = .dropped 2 4 := by decide
